@@ -236,6 +236,8 @@ type point struct {
 
 type session struct {
 	r      *hx.Run
+	dbs    map[int]kvstore.KVStore // shared databases (`opendb`)
+	realms map[int][][]byte        // realms in use per shared database
 	insts  map[int]*inst
 	points []point
 	lines  []string
@@ -247,7 +249,7 @@ type session struct {
 }
 
 func newSession(r *hx.Run) *session {
-	return &session{r: r, insts: map[int]*inst{}, classes: map[string]struct{}{}}
+	return &session{r: r, dbs: map[int]kvstore.KVStore{}, realms: map[int][][]byte{}, insts: map[int]*inst{}, classes: map[string]struct{}{}}
 }
 
 func (ss *session) fail(oracle, op string, in *inst, detail string) {
@@ -325,6 +327,21 @@ func maxLCP(m map[string][]byte) int {
 	return best
 }
 
+// compatible mirrors Hive.Ads.compatible: no region id (realm + one of the bytes 0..3) of one
+// instance is a prefix of a region id of the other.
+func compatible(r1, r2 []byte) bool {
+	for a := byte(0); a < 4; a++ {
+		for b := byte(0); b < 4; b++ {
+			x, y := append(clone(r1), a), append(clone(r2), b)
+			if bytes.HasPrefix(y, x) || bytes.HasPrefix(x, y) {
+				return false
+			}
+		}
+	}
+
+	return true
+}
+
 // exec interprets one request line on the real code and evaluates the oracles on the answer.
 func (ss *session) exec(op string) string {
 	ss.lines = append(ss.lines, op)
@@ -336,6 +353,15 @@ func (ss *session) exec(op string) string {
 	if err != nil {
 		return "bad-op"
 	}
+	if f[0] == "opendb" {
+		if len(f) != 2 {
+			return "bad-op"
+		}
+		ss.dbs[idx] = mapdb.NewMapDB()
+		ss.realms[idx] = nil
+
+		return "ok"
+	}
 	if f[0] == "open" {
 		if len(f) != 3 || (f[2] != "map" && f[2] != "set") {
 			return "bad-op"
@@ -343,6 +369,44 @@ func (ss *session) exec(op string) string {
 		in := &inst{flavour: f[2], store: mapdb.NewMapDB(), want: map[string][]byte{}, committed: map[string][]byte{}}
 		in.reopen()
 		ss.insts[idx] = in
+
+		return "ok"
+	}
+	if f[0] == "openr" {
+		// openr <i> <flavour> <d> <seg/seg/...>: instance i over a realm view of the shared database d
+		if len(f) != 5 || (f[2] != "map" && f[2] != "set") {
+			return "bad-op"
+		}
+		d, err := strconv.Atoi(f[3])
+		db, ok := ss.dbs[d]
+		if err != nil || !ok {
+			return "nodb"
+		}
+		var view kvstore.KVStore
+		var realm []byte
+		for n, seg := range strings.Split(f[4], "/") {
+			b := hx.UnHex(seg)
+			realm = append(realm, b...)
+			if n == 0 {
+				view, err = db.WithRealm(b)
+			} else {
+				view, err = view.WithExtendedRealm(b)
+			}
+			if err != nil {
+				return "err"
+			}
+		}
+		// the property speaks about instances whose key spaces do not overlap
+		for _, o := range ss.realms[d] {
+			if !compatible(o, realm) {
+				return "bad-op"
+			}
+		}
+		ss.realms[d] = append(ss.realms[d], realm)
+		in := &inst{flavour: f[2], store: view, want: map[string][]byte{}, committed: map[string][]byte{}}
+		in.reopen()
+		ss.insts[idx] = in
+		ss.r.Count("instance-over-realm-view")
 
 		return "ok"
 	}
@@ -877,8 +941,26 @@ func genSession(rng *hx.Rng, clusters []mine.Cluster, nOps int) []string {
 	g.pending = make([]bool, nInst)
 	g.dirtyOK = rng.Chance(1, 16)
 	var ops []string
-	for i := 0; i < nInst; i++ {
-		ops = append(ops, fmt.Sprintf("open %d %s", i, g.flavour[i]))
+	// 2 of 5 sessions: all instances over realm views of ONE shared database (sibling realms, nested
+	// realms, a realm that is a prefix of another, the bare database next to realms)
+	shared := rng.Chance(2, 5)
+	if shared {
+		realms := hx.Pick(rng, [][]string{
+			{"61", "62", "63", "64"},
+			{"61", "61/62", "61/63", "61/62/64"},
+			{"-", "61", "6162", "61/63"},
+			{"6162", "61", "61/6264", "62"},
+			{"04", "05/00", "05/01", "05/0401"},
+			{"01", "02", "03", "00"},
+		})
+		ops = append(ops, "opendb 0")
+		for i := 0; i < nInst; i++ {
+			ops = append(ops, fmt.Sprintf("openr %d %s 0 %s", i, g.flavour[i], realms[i]))
+		}
+	} else {
+		for i := 0; i < nInst; i++ {
+			ops = append(ops, fmt.Sprintf("open %d %s", i, g.flavour[i]))
+		}
 	}
 	if rng.Chance(2, 5) {
 		// convergent session: every instance is driven to the same target contents (one of them
@@ -920,6 +1002,45 @@ func genSession(rng *hx.Rng, clusters []mine.Cluster, nOps int) []string {
 			hs[i] = append(hs[i], fmt.Sprintf("root %d", i))
 		}
 		ops = append(ops, merge(rng, hs)...)
+		if shared || rng.Chance(1, 3) {
+			// one instance deletes / overwrites entries the others hold too and commits; the others are
+			// reopened at their commit points and read everything back
+			j := rng.Intn(nInst)
+			tks := make([]string, 0, len(target))
+			for k := range target {
+				tks = append(tks, k)
+			}
+			sort.Strings(tks)
+			shuffle(rng, tks)
+			for _, k := range tks[:rng.Range(1, len(tks))] {
+				if rng.Chance(3, 4) {
+					ops = append(ops, g.delOp(j, k))
+				} else {
+					ops = append(ops, g.setOp(j, k, "6f76657277726974"))
+				}
+			}
+			ops = append(ops, fmt.Sprintf("commit %d", j))
+			g.pending[j] = false
+			if rng.Bool() {
+				ops = append(ops, fmt.Sprintf("reopen %d", j))
+			}
+			for i := 0; i < nInst; i++ {
+				if i == j {
+					continue
+				}
+				if g.pending[i] {
+					ops = append(ops, fmt.Sprintf("commit %d", i))
+					g.pending[i] = false
+				}
+				ops = append(ops, fmt.Sprintf("reopen %d", i))
+				for _, k := range tks {
+					ops = append(ops, fmt.Sprintf("has %d %s", i, k))
+					if g.flavour[i] == "map" && rng.Bool() {
+						ops = append(ops, fmt.Sprintf("get %d %s", i, k))
+					}
+				}
+			}
+		}
 	} else {
 		// random session over a small alphabet (2 long-prefix keys plus 1-3 others, 3 values), so that
 		// different instances and time points meet in equal contents by chance
@@ -960,7 +1081,7 @@ func runCase(r *hx.Run, sub uint64, ops []string) {
 
 func main() {
 	r := hx.Start()
-	r.Rule = "sessions of 2-4 map/set instances (own mapdb each) x ~30-60 requests open/set/add/del/get/has/size/stream/commit/reopen/root/restored; " +
+	r.Rule = "sessions of 2-4 map/set instances (each over its own mapdb, or — 2 of 5 sessions — all over sibling / nested / prefix-related realm views of one shared mapdb) x ~30-60 requests open/set/add/del/get/has/size/stream/commit/reopen/root/restored; " +
 		"keys: 3 keys sharing >=16 leading sha256-path bits, relatives sharing 12..15 and 8..11 bits, strangers, odd lengths, the empty key; " +
 		"values: nil-encoded, empty, short, 40 bytes, un-encodable, un-decodable; 40% convergent sessions (different histories to equal or neighbouring contents); " +
 		"non-trivial = two root points with equal contents reached by different instances or after intervening changes, at least two root classes and at least 5 state changes; distinct by sha256 of the request lines"
